@@ -62,7 +62,8 @@ class Prop(PoolProp):
             "state; schedules from uniform random walks, PCT-style priorities and long bursts with random switches; every step "
             "(operation, result, index/counter/lock/file digest, enabled set) compared with the Lean model; oracle: every read "
             "raises IndexError or returns exactly the stored text, double stores raise ValueError once, final len / "
-            "is_contiguous / iteration match the stored identifiers; non-trivial = at least 30 steps with a store and a read")
+            "is_contiguous / iteration match the stored identifiers; a quarter of the runs add context-manager sessions (exit, "
+            "re-open in append mode by the next store) and are judged by the oracle only; non-trivial = at least 30 steps with a store and a read")
     trusted_base = ["Lean 4.33.0 kernel", "axioms: propext, Classical.choice, Quot.sound (audited per theorem)",
                     "hand-written interleaving model Model/Storage.lean tied to storage.py by step-by-step correspondence under "
                     "the controlled scheduler",
@@ -132,6 +133,15 @@ class Prop(PoolProp):
             for _ in range(rng.choice([4, 6, 8])):
                 poll.append(["read", rng.choice(gs)])
             scripts.append(poll)
+        if rng.random() < 0.25:
+            # context-manager sessions (oracle-only runs): a process leaves its session between two operations and goes on —
+            # its file is re-opened in append mode by the next store, its read handles are re-opened on demand
+            for sc in scripts:
+                if sc and rng.random() < 0.7:
+                    if rng.random() < 0.5:
+                        sc.insert(0, ["enter"])
+                    for _ in range(rng.choice([1, 1, 2])):
+                        sc.insert(rng.randint(1, len(sc)), ["exit"])
         scripts.append([["iter"], ["len"], ["contig"]] + [["read", g] for g in sorted(set(ids))[:4]])
         return SCfg(rng.choice([0, 0, max(ids) + 1]), scripts, buffered=rng.random() < 0.5)
 
